@@ -26,7 +26,8 @@ LEVEL_TEXT = (
     "cache (with its denoted value) whenever a dependent is ready or running (no_early_release); finish_task for a "
     "running key never raises - the assert in release_data, the `del cache[key]` and every `.remove` succeed, so no "
     "key is released twice (release_once); a released key is never requested, all its dependents have finished and "
-    "it is out of the cache (released_only_when_unneeded, results_never_released); on normal return the cache holds "
+    "it is out of the cache (released_only_when_unneeded, results_never_released); conversely a non-requested key whose "
+    "dependents have all finished has already been released, at every moment (released_promptly); on normal return the cache holds "
     "exactly the requested keys and every other visited key is released (no_leak). The *_full versions hold for the state start_state_from_dask really builds (Sched.startState_ok).")
 LEVEL_NOTE = (
     "A user-supplied shared `cache=` mapping and `delete=False` are outside the model (cache starts empty, "
